@@ -40,7 +40,7 @@ def refs_resolve(doc, node=None, top=True):
     return True
 
 
-def ser_ok(make, v, defs=None):
+def ser_ok(make, v, defs=None, check_meta=True):
     from vf.common import serialize_json, is_json, ref6, deref, parse_element, accepts, jcopy
 
     E = make()
@@ -50,7 +50,7 @@ def ser_ok(make, v, defs=None):
         return False
     if not refs_resolve(doc):
         return False
-    if not ref6(META6, doc, META6):
+    if check_meta and not ref6(META6, doc, META6):
         return False
     E2 = parse_element(deref(doc))
     return accepts(E, jcopy(v)) == accepts(E2, jcopy(v))
@@ -160,6 +160,14 @@ def make():
 return not ser_reach(make, v, {want})
 """
             hs.append(mk(f"c03_{name}__{'acc' if want else 'rej'}", f"{hargs}, v: {vt}", pre, body, kind="witness", tier="thorough" if tier == "thorough" or not want else "quick", timeout=30, group="tree"))
+    # empty tuple `items`: the DSL accepts it, Draft 6 does not (schemaArray has minItems 1): known finding for the metaschema
+    # clause only - the meaning of the document must still be preserved
+    known_empty = ctx.known("C03-empty-tuple-items")
+    hs.append(mk("c03_empty_tuple_items", "m: int, f: bool, v: List[Union[int, bool]]", ["len(v) <= 2"], f"""
+def make():
+    return Element(properties={{"t": Property(Array([], additionalItems=(Integer(maximum=m) if f else False)))}}, items=[], additionalItems=Integer(minimum=m))
+return ser_ok(make, v, None, {not known_empty}) and ser_ok(make, {{"t": v}}, None, {not known_empty})
+""", timeout=120, group="tree", covers="empty tuple items next to a restricting additionalItems (typed Array and untyped Element)"))
     hs.append(mk("c03_sequence_definitions", "m: int, v: List[Dict[str, int]]", ["len(v) <= 2", "all(len(d) <= 1 and all(k in ('a', 'b') for k in d) for d in v)"], """
 def make():
     return Array(_M(m), maxItems=2)
@@ -182,4 +190,10 @@ def _demo_renamed_key():
     return "a" not in serialize_json(el)["properties"]
 
 
-DEMOS = {"C03-explicit-required-lost": _demo_required_lost, "C03-renamed-key": _demo_renamed_key}
+def _demo_empty_tuple():
+    from vf.common import Array, serialize_json, ref6
+
+    return not ref6(META6, serialize_json(Array([], additionalItems=False)), META6)
+
+
+DEMOS = {"C03-explicit-required-lost": _demo_required_lost, "C03-renamed-key": _demo_renamed_key, "C03-empty-tuple-items": _demo_empty_tuple}
